@@ -273,6 +273,17 @@ func (e *Exec) lockRelease(fr *Frame, st *State, id string, lock Val, pos token.
 		}
 		if root != "" {
 			e.monitorInv(fr, st, lc, root, pos, true)
+			// a guarded priority queue must agree with its ghost abstraction when the lock is released
+			// (the code may only have changed it through container/heap)
+			for _, gf := range lc.Fields {
+				u := gf.Struct.Underlying().(*types.Struct)
+				ft := u.Field(gf.Field).Type()
+				if _, _, isQueue := heapKeyField(ft); isQueue {
+					sl := ft.Underlying().(*types.Slice)
+					f := e.heapLink(st, root, sel(e.hget(st, e.fieldMap(gf.Struct, gf.Field)), root), sl.Elem())
+					e.sc.oblig(st.reach, f, e.obName("queue-repr"), "lock", "the queue "+u.Field(gf.Field).Name()+" agrees with its abstraction (length, smallest key first) when the lock is released", e.pos(pos))
+				}
+			}
 		}
 	}
 	e.hset(st, "G_held", sto(held, id, "false"))
@@ -302,6 +313,23 @@ func (e *Exec) havocGuarded(fr *Frame, st *State, lc *lockClass, root string) {
 			continue
 		}
 		e.hset(st, m, sto(h, root, ite(isFresh, oldv, nv)))
+		if _, _, isQueue := heapKeyField(ft); isQueue {
+			// a priority queue: its ghost abstraction is whatever the other goroutines left there, in
+			// agreement with the slice
+			e.heapGhost()
+			for _, g := range heapGhostNames {
+				gh := e.hget(st, g)
+				srt := e.heapSort[g]
+				inner := srt[len("(Array Int ") : len(srt)-1]
+				e.hset(st, g, ite(isFresh, gh, sto(gh, root, e.sc.freshConst("guarded."+g, inner))))
+			}
+			sl := ft.Underlying().(*types.Slice)
+			e.sc.assume(st.reach, implies(not(isFresh), e.heapLink(st, root, sel(e.hget(st, m), root), sl.Elem())))
+			// the elements in the queue were allocated before this acquisition
+			rf := sel(e.hget(st, "HP_ref"), root)
+			qs := e.sc.freshName("q.s")
+			e.sc.assume(st.reach, fmt.Sprintf("(forall ((%s Int)) (! (and (<= 0 (select %s %s)) (<= (select %s %s) %s)) :pattern ((select %s %s))))", qs, rf, qs, rf, qs, e.hget(st, "G_alloc"), rf, qs))
+		}
 		if gf.Elems {
 			if sl, ok := ft.Underlying().(*types.Slice); ok {
 				em := e.elemHeap(sl.Elem())
